@@ -1174,8 +1174,16 @@ bool StepScript(ScriptExecutionEnvironment& env, CScript::const_iterator& pc, CS
                         valtype& vchSig = stacktop(-isig-k);
                         if (sigversion == SigVersion::BASE) {
                             int found = FindAndDelete(scriptCode, CScript() << vchSig);
-                            if (found > 0 && (flags & SCRIPT_VERIFY_CONST_SCRIPTCODE))
-                                return set_error(serror, SCRIPT_ERR_SIG_FINDANDDELETE);
+                            if (found > 0 && (flags & SCRIPT_VERIFY_CONST_SCRIPTCODE)) {
+                                // the rule belongs to the real signature check: a signature that is pretended valid for one
+                                // of the keys of this operation has no digest (OP_CHECKSIG takes that decision first, too)
+                                bool pretended = false;
+                                if (pretend_valid_map.count(vchSig)) {
+                                    const auto& keys = pretend_valid_map.at(vchSig);
+                                    for (int j = 0; j < nKeysCount && !pretended; j++) pretended = keys.count(stacktop(-ikey-j)) > 0;
+                                }
+                                if (!pretended) return set_error(serror, SCRIPT_ERR_SIG_FINDANDDELETE);
+                            }
                         }
                     }
 
